@@ -134,9 +134,9 @@ def pr_(e):
     if isinstance(e, Choice):
         return ' | '.join(par(x, ()) for x in e.alts)
     if isinstance(e, Opt):
-        return par(e.e, (Seq, Choice, Assign)) + '?'
+        return par(e.e, (Seq, Choice, Assign, Rep, Opt, And, Not, Unord)) + '?'
     if isinstance(e, Rep):
-        return par(e.e, (Seq, Choice, Assign)) + ('+' if e.min else '*') + pr_mods(e.sep, e.eolterm)
+        return par(e.e, (Seq, Choice, Assign, Rep, Opt, And, Not, Unord)) + ('+' if e.min else '*') + pr_mods(e.sep, e.eolterm)
     if isinstance(e, Unord):
         return '(' + ' '.join(par(x, (Choice, Seq)) for x in e.items) + ')#'
     if isinstance(e, And):
@@ -176,6 +176,23 @@ def pr_grammar(g):
     return '\n'.join(out) + '\n'
 
 # ---------------- analyses ----------------
+def nullable(e):
+    """can e succeed without consuming a character (conservative, references are assumed non-nullable)"""
+    if isinstance(e, (Opt, And, Not)):
+        return True
+    if isinstance(e, Rep):
+        return e.min == 0 or nullable(e.e)
+    if isinstance(e, (Seq, Unord)):
+        return all(nullable(x) for x in e.items)
+    if isinstance(e, Choice):
+        return any(nullable(x) for x in e.alts)
+    if isinstance(e, Assign):
+        return e.op in ('*=', '?=')
+    if isinstance(e, Lit):
+        return e.s == ''
+    return False
+
+
 def assigns_in(e):
     """Assignments directly in a rule body (not through references)."""
     if isinstance(e, Assign):
